@@ -39,6 +39,35 @@ def propagate_job(args):
                 cfg = tomli.load(fh)
             conf = None
             order = OP.Position((0, 0), periodic=False)
+        if kind == "turtlemd:seeded":
+            # a seed among the integrator settings of the .toml must not replace the seed drawn from the job's stream: two jobs with
+            # different streams, same start point.  (The program may refuse such an input: then no move is made and nothing is shared.)
+            cfg["engine"]["integrator"].setdefault("settings", {})["seed"] = 70
+            conf = os.path.join(work, "start.xyz")
+            with open(conf, "w") as fh:
+                fh.write("1\n# start\nZ -0.9 0.0 0.0 0.4 0.0 0.0\n")
+            out2, refused = [], None
+            for rep in range(2):
+                eng = create_engine(cfg)
+                exe = os.path.join(work, f"sexe{rep}")
+                os.makedirs(exe)
+                eng.exe_dir = exe
+                eng.order_function = order
+                eng.rgen = np.random.default_rng(seed + 1000 * rep)
+                s = System()
+                s.set_pos((conf, 0))
+                s.order = [0.0]
+                path = Path(maxlen=12)
+                try:
+                    eng.propagate(path, {"interfaces": (-1e9, 0.0, 1e9), "ens_name": "007"}, s, reverse=False)
+                except TypeError as exc:
+                    refused = str(exc)[:120]
+                    break
+                out2.append([tuple(np.round(p.order, 12)) for p in path.phasepoints])
+            same = refused is None and len(out2) == 2 and out2[0] == out2[1]
+            return [{"engine": "turtlemd:propagate:seed-in-settings", "masses": "-", "request_ok": True, "foreign": 0, "foreign_who": [],
+                     "same_stream_same_velocities": True, "stream_advanced": True, "stream_decides": not same,
+                     "detail": {"refused": refused, "identical_for_two_streams": same}}]
         trajs, counts, who = [], [], []
         st0 = st1 = None
         for rep, global_seed in enumerate((1, 2)):
@@ -78,8 +107,8 @@ def run(sc, tier):
     work = common.tmpdir("c07e-")
     try:
         extra = []
-        for evs in common.pmap(propagate_job, [(k, sc.chk.seed + 5 + i) for i, k in enumerate(("ase", "turtlemd", "ase", "turtlemd"))]):
+        for evs in common.pmap(propagate_job, [(k, sc.chk.seed + 5 + i) for i, k in enumerate(("ase", "turtlemd", "ase", "turtlemd", "turtlemd:seeded"))]):
             extra += evs
-        c16.collect(sc.chk, tier, work, "C07", {"V_NoForeign", "V_Reproducible", "V_StreamAdvances"}, extra_events=extra)
+        c16.collect(sc.chk, tier, work, "C07", {"V_NoForeign", "V_Reproducible", "V_StreamAdvances", "V_StreamDecides"}, extra_events=extra)
     finally:
         common.rmtree(work)
